@@ -20,7 +20,7 @@ def pub(case_or_rename, i):
     return 'from' if r and i == 0 else 'a%d' % (i + 1)
 
 
-def build(style, n, ret, seen, rename=False):
+def build(style, n, ret, seen, rename=False, dflt=False):
     """-> (application, method name).  seen: list collecting the args of each invocation"""
     from spyne import Application, Service, srpc, Integer, Fault, ComplexModel, Iterable, Ignored
     from spyne.protocol.xml import XmlDocument
@@ -65,6 +65,8 @@ def build(style, n, ret, seen, rename=False):
             _type_info = [('a1', SelfReference), ('a2', Integer)]
         argt = [Node]
         NODE[0] = Node
+    elif dflt:
+        argt = [Integer(default=70 + i + 1) for i in range(n)]      # the TYPE of every argument declares a default
     else:
         argt = [Integer] * n
 
@@ -318,7 +320,7 @@ def run(ctx):
         seen = []
         n = len(c['modes'])
         try:
-            app = build(c['style'], n, c['ret'], seen, c['rename'])
+            app = build(c['style'], n, c['ret'], seen, c['rename'], c['dflt'])
         except Exception as e:
             ctx.violation('cannot-build|style=%s|n=%d|ret=%s|%s' % (c['style'], n, c['ret'], type(e).__name__),
                           'application for %s cannot be built: %s' % (c, e), {'case': c})
@@ -361,7 +363,8 @@ def run(ctx):
                                   {'history': rec['history'], 'observation': rec['obs']})
                     continue
                 c = rec['case']
-                ctx.violation('%s|wire=%s|style=%s|ret=%s|modes=%s%s' % ('+'.join(cl), rec['wire'], c['style'], c['ret'], ','.join(c['modes']) or '-', '|renamed' if c['rename'] else ''),
+                ctx.violation('%s|wire=%s|style=%s|ret=%s|modes=%s%s%s' % ('+'.join(cl), rec['wire'], c['style'], c['ret'], ','.join(c['modes']) or '-', '|renamed' if c['rename'] else '',
+                                                                          '|defaults' if c['dflt'] else ''),
                               'clauses %s fail: direct %s args %s; wire(%s) %s args %s' % (
                                   cl, rec['obs']['dres'], rec['obs']['dargs'], rec['wire'], rec['obs']['wres'], rec['obs']['wargs']),
                               {'case': c, 'observation': rec['obs'], 'wire': rec['wire']})
